@@ -531,7 +531,16 @@ def m_values(s, rng):
                 c = copy.deepcopy(s)
                 get(c, addr)['values'][vi]['value'] = lit
                 yield Mut(c, 'value', 'valueOutOfRange', path + [vname], pos, 'reject', '%r: %s' % (lit, why))
+            def _same(a, b):
+                try:
+                    return int(str(a)) == int(str(b))
+                except ValueError:
+                    return str(a) == str(b)
             for lit, why in good:
+                # a boundary value that another validValue of the enum already has is a duplicate (rejected), not an
+                # acceptance case
+                if any(_same(lit, x['value']) for j, x in enumerate(e['values']) if j != vi):
+                    continue
                 c = copy.deepcopy(s)
                 get(c, addr)['values'][vi]['value'] = lit
                 yield Mut(c, 'value', None, path + [vname], pos, 'accept', '%r: %s' % (lit, why))
@@ -1804,7 +1813,7 @@ def m_enum_values(s, rng):
             yield add([(nn, str(free[0]))], None, 'another value')
             if 10 not in used and 1 in used:
                 yield add([(nn, '10')], None, '10 next to 1')
-            if lo < 0 and -val not in used and val != 0 and lo <= -val:
+            if lo < 0 and -val not in used and val != 0 and lo <= -val <= hi:
                 yield add([(nn, str(-val))], None, 'the negated value')
 
 
